@@ -1,6 +1,7 @@
 import Casket.Proofs.Parser
 import Casket.Proofs.ParserTerm
 import Casket.Proofs.ParserRT
+import Casket.Proofs.ParserCycle
 import Casket.Proofs.Lexer
 /-
 C10 — Casketfile parsing is total, terminating and structure-preserving.
@@ -10,7 +11,7 @@ The model (`Casket.Lexer.lex`, `Casket.Parser.parse`) is tied to casketfile/lexe
 casketfile/parse.go by the streams c10.lex / c10.parse / c10.rt.
 -/
 namespace Casket.Props.C10
-open Casket.Lexer Casket.Dispenser Casket.Parser Casket.ParserSpec Casket.LexerSpec Casket.ParserRT
+open Casket.Lexer Casket.Dispenser Casket.Parser Casket.ParserSpec Casket.LexerSpec Casket.ParserRT Casket.ParserCycle
 
 /-! ### the lexer (`lex` is total by construction: one structural recursion over the decoded runes): layout is insignificant -/
 
@@ -124,17 +125,6 @@ theorem C10_parse_roundtrip_text (cfg : Cfg) (hf : 0 < cfg.envFuel) (hv : cfg.va
     parse cfg fuel fn input = .ok (bs.map expectedBlock) := by
   unfold parse; rw [hlex]; exact parseTokens_rt cfg hf hv fn bs hall fuel hfuel
 
-theorem sameBlock_refl (a : ServerBlock) : sameBlock a a = true := by
-  unfold sameBlock
-  simp only [beq_self_eq_true, Bool.true_and, List.all_eq_true, List.any_eq_true, Bool.and_eq_true]
-  intro p hp
-  exact ⟨p, hp, by simp, by simp⟩
-
-theorem sameBlocks_refl (l : List ServerBlock) : sameBlocks l l = true := by
-  induction l with
-  | nil => rfl
-  | cons a as ih => simp [sameBlocks, sameBlock_refl, ih]
-
 /-- the model's answer satisfies the round-trip judge (`ParserSpec.roundTrip`, what c10.rt applies to the answers of
 the real parser) for every written configuration -/
 theorem C10_roundtrip_model_verdict_ok (cfg : Cfg) (hf : 0 < cfg.envFuel) (hv : cfg.valid = none) (fn : String)
@@ -161,26 +151,6 @@ example :
   decide
 
 /-! ### import cycles (finding F8, repaired) -/
-
-def sImportF0 : Bytes := sImport ++ [0x20, 0x66, 0x30, 0x0A]      -- "import f0\n"
-/-- a directory whose file `f0` imports itself -/
-def selfFS : FS := ⟨[("f0", sImportF0)]⟩
-def unfixed : Cfg := { fs := selfFS, cycleCheck := false, envFuel := 3 }
-
-/-- the state the unrepaired parser keeps coming back to -/
-def loopState : PState := { d := ⟨"Casketfile", [⟨"f0", 1, sImport⟩, ⟨"f0", 1, [0x66, 0x30]⟩], 0, 0⟩ }
-
-theorem loopState_step : doImport unfixed loopState = .ok loopState := by decide
-
-theorem addresses_loops (fuel : Nat) : addresses unfixed fuel loopState false = .timeout := by
-  induction fuel with
-  | zero => rfl
-  | succ n ih =>
-    have h1 : envR unfixed loopState.d.val = .ok sImport := by decide
-    have h2 : (sImport == sImport && loopState.d.isNewLine) = true := by decide
-    unfold addresses
-    rw [h1]
-    simp only [Res.bind, h2, if_true, loopState_step, ih]
 
 /-- Finding F8 on the code as it was (`cycleCheck := false` is the parser before the `fix:` commit):
 a file that imports itself is followed forever — whatever the fuel, the answer is `timeout`. -/
